@@ -110,7 +110,11 @@ class C03(Check):
         if fs is not None:
             return
         if self.tier == "quick" and (gap != 0.1 or max_cn != 3 + self.seed % 2):
-            return      # quick: deviations only on one (gap, max_cn) slice; thorough expands all
+            return      # quick: deviations only on one (gap, max_cn) slice
+        if self.tier == "thorough" and (gap != 0.1 or max_cn > 5):
+            return      # thorough: deviations for gap 0.1 and max_cn 3-5 (all gaps / max_cn at depth 0)
+        if devs and not (wk == ("toy",) and max_cn == 4):
+            return      # second deviation: toy gene, max_cn 4
         if wk == ("shipped", "cyp2d6") and len(devs) >= 1:
             return
         gene = worlds.gene_of(wk, "hg19")
@@ -119,7 +123,7 @@ class C03(Check):
         for r, g in cells:
             if last and (r, g) <= last:
                 continue
-            for d in DELTAS:
+            for d in (DELTAS if not devs else (0.5, -0.5)):
                 yield (f"{r}/{g}{d:+}", ("vec", wk, max_cn, gap, planted, devs + ((r, g, d),), fs))
 
     def evaluate(self, st):
